@@ -266,6 +266,28 @@ fn node_scenario(a: &[&str]) -> String {
                     }
                 }
                 "W" => w.deliver(num(p[1]), num(p[2]), unhex(p[3])),
+                "Y" => {
+                    // Y.<dst>.<src>.<cipher 1|2|3>.<key id byte>.<nonce half 0|1>.<key byte>.<plaintext hex>
+                    // what a party WITHOUT any key of the mesh can fabricate: a well-formed datagram sealed under a guessable key
+                    // (every key byte equal), for a chosen cipher, key slot and nonce half
+                    use ring::aead::{self, Aad, LessSafeKey, Nonce, UnboundKey};
+                    let alg: &'static aead::Algorithm = match num::<u8>(p[3]) {
+                        1 => &aead::AES_128_GCM,
+                        2 => &aead::AES_256_GCM,
+                        _ => &aead::CHACHA20_POLY1305,
+                    };
+                    let key = LessSafeKey::new(UnboundKey::new(alg, &vec![num::<u8>(p[6]); alg.key_len()]).unwrap());
+                    let mut nonce = [0u8; 12];
+                    nonce[0] = if p[5] == "1" { 0x80 } else { 0 };
+                    nonce[11] = 1;
+                    let mut data = unhex(p[7]);
+                    let tag = key.seal_in_place_separate_tag(Nonce::assume_unique_for_key(nonce), Aad::empty(), &mut data).unwrap();
+                    let mut dg = vec![num::<u8>(p[4])];
+                    dg.extend_from_slice(&nonce[5..]);
+                    dg.extend_from_slice(&data);
+                    dg.extend_from_slice(tag.as_ref());
+                    w.deliver(num(p[1]), num(p[2]), dg)
+                }
                 "L" => {
                     // L.<dst>.<src>.<kind i|d>.<n>: n-th last datagram that src sent to dst of that kind
                     let dst: u32 = num(p[1]);
